@@ -135,6 +135,7 @@ class Sim:
         self.fitted = None  # dataset id or None (unspecified)
         self.fit_epoch = 0
         self.answers = {}
+        self.version = {}
         self.events = []
         self.violations = []
         self.sig = []
@@ -211,6 +212,18 @@ class Sim:
         self.fitted = None
         ev["res"] = "ok"
         self.probe("param_changed")
+
+    def op_mutate(self, st, ev, i):
+        """The user overwrites their data array in place (a reused buffer): the cost is
+        unspecified until the next fit, which must see the new values."""
+        d = st["d"]
+        new = np.array(st["values"], dtype=float).reshape(self.data[d].shape)
+        self.data[d][...] = new
+        self.version[d] = self.version.get(d, 0) + 1
+        if self.fitted == d:
+            self.fitted = None
+        self.probe("data_mutated_in_place")
+        ev["res"] = "ok"
 
     def op_fit(self, st, ev, i):
         if self.cost is None:
@@ -372,7 +385,7 @@ class Sim:
             self.nontrivial = True
         for row, (s, e), r_ in zip(out, cuts, refs):
             s, e = int(s), int(e)
-            key = (self.fitted, json.dumps(self.param_spec, sort_keys=True), s, e)
+            key = (self.fitted, self.version.get(self.fitted, 0), json.dumps(self.param_spec, sort_keys=True), s, e)
             if key in self.answers:
                 self.stats["independence_checks"] += 1
                 prev = self.answers[key]
@@ -470,6 +483,9 @@ def gen_step(rng, sim, cfg, datasets):
     if r < 0.11:
         p_ref = datasets[int(rng.integers(len(datasets)))]["p"]
         return {"op": "set_params", "param": gen_param(rng, sim.kind, p_ref)}
+    if r < 0.14 and sim.fitted is not None:
+        X = sim.data[sim.fitted]
+        return {"op": "mutate", "d": sim.fitted, "values": gen_X(rng, 0, shape=X.shape).tolist()}
     if sim.fitted is None or r < 0.26:
         # prefer a twin (same shape) of the currently fitted data
         cands = list(range(len(datasets)))
@@ -493,12 +509,12 @@ def gen_step(rng, sim, cfg, datasets):
         return {"op": "fit", "d": int(rng.integers(len(datasets))), "container": "ndarray", "dtype": "float64"}
     k = int(rng.integers(1, cfg["max_batch"] + 1))
     cuts = []
-    prev = [key for key in sim.answers if key[0] == sim.fitted]
+    prev = [key for key in sim.answers if key[0] == sim.fitted and key[1] == sim.version.get(sim.fitted, 0)]
     for _ in range(k):
         c = rng.random()
         if prev and c < 0.35:
             key = prev[int(rng.integers(len(prev)))]
-            cuts.append([key[2], key[3]])
+            cuts.append([key[3], key[4]])
         elif cuts and c < 0.45:
             cuts.append(list(cuts[int(rng.integers(len(cuts)))]))
         else:
